@@ -550,25 +550,37 @@ def run_one(inp: dict) -> dict:
     return {"input": inp, "obs": obs, "oracle_fail": oracle(inp, obs, schemas), "dom": in_domain(inp)}
 
 
+def run_all(inputs: list[dict]) -> list[dict]:
+    """The loader (its third-party spec validator) retains ~2 MB per document; run the cases in recycled worker
+    processes.  Results keep the order of the inputs; every case is independent of the others."""
+    import multiprocessing as mp
+    ctx = mp.get_context("fork")
+    with ctx.Pool(processes=8, maxtasksperchild=150) as pool:
+        return pool.map(run_one, inputs, chunksize=10)
+
+
 def build_inputs(chk: Check) -> list[dict]:
     rng = chk.rng
     inputs = [c["input"] for c in load_corpus("C02")]
     graphs = []
-    for ns in NAME_SETS:
+    for si, ns in enumerate(NAME_SETS):
         for nodes in (1, 2, 3):
-            for edges in enum_graphs(2 if nodes < 3 else (2 if chk.thorough else 1), nodes):
+            full = nodes < 3 or (chk.thorough and si < 2)   # all graphs with <= 2 edges; 3 nodes: two name sets in full
+            gs = []
+            for edges in enum_graphs(2 if (nodes < 3 or chk.thorough) else 1, nodes):
                 for order in itertools.permutations(range(nodes)):
-                    graphs.append((ns[:nodes], edges, order))
+                    gs.append((ns[:nodes], edges, order))
+            if chk.thorough and not full:
+                gs = rng.sample(gs, 2500)
+            graphs += gs
     if not chk.thorough:
         graphs = rng.sample(graphs, 260)
     else:
-        extra = []
         for _ in range(3000):   # 3-edge graphs, sampled
             ns = rng.choice(NAME_SETS)
             slots = [(i, j) for i in range(3) for j in range(3)]
             edges = [(a, b, rng.choice(EDGE_KINDS)) for a, b in rng.sample(slots, 3)]
-            extra.append((ns, edges, tuple(rng.sample(range(3), 3))))
-        graphs += extra
+            graphs.append((ns, edges, tuple(rng.sample(range(3), 3))))
     inputs += [graph_spec(*g) for g in graphs]
     n = 4000 if chk.thorough else 260
     inputs += [gen_spec(rng, 7) for _ in range(n)]
@@ -591,7 +603,7 @@ def main(chk: Check, replay: dict | None = None) -> int:
         return 0
     chk.prove()
     inputs = build_inputs(chk)
-    cases = [run_one(i) for i in inputs]
+    cases = run_all(inputs)
     chk.cov["evaluations"] = len(cases)
     dom = [c for c in cases if c["dom"]]
     out = [c for c in cases if not c["dom"]]
